@@ -129,4 +129,73 @@ Section VerletProofs.
         replace (1 + (m - 1)) with m by lia. reflexivity. }
       rewrite Hl. ring.
   Qed.
+
+  (* ---------------------------------------------------------------- compute_end_point *)
+  Variable weights qQ : nat -> K.
+
+  Lemma sumf_swap (a : nat -> nat -> K) lo1 n1 lo2 n2 :
+    sumf (fun i => sumf (fun j => a i j) lo2 n2) lo1 n1 = sumf (fun j => sumf (fun i => a i j) lo1 n1) lo2 n2.
+  Proof.
+    induction n1 as [|n1 IH].
+    - cbn. symmetry. apply (sumf_zero kO kI kadd kmul ksub kopp Rth).
+    - rewrite (sumf_snoc kO kI kadd kmul ksub kopp Rth), IH.
+      rewrite (sumf_ext kO kadd (fun j => sumf (fun i => a i j) lo1 (S n1))
+                 (fun j => sumf (fun i => a i j) lo1 n1 +! a (lo1 + n1) j) lo2 n2)
+        by (intros j _; apply (sumf_snoc kO kI kadd kmul ksub kopp Rth)).
+      rewrite (sumf_add kO kI kadd kmul ksub kopp Rth). reflexivity.
+  Qed.
+
+  (* verlet.compute_end_point: a copy of the last node exactly when configured so; otherwise the full Picard
+     evaluation  x0 + dt (sum w) v0 + dt^2 sum_m qQ_m f_m (+ tau),  v0 + dt sum_m w_m f_m (+ tau) *)
+  Theorem verlet_end_point_form rin dcu (p v f : nat -> V) taup tauv :
+    let e := verlet_end_point kadd kmul M dt weights qQ rin dcu p v f taup tauv in
+    (rin && negb dcu = true -> e = (p M, v M)) /\
+    (rin && negb dcu = false -> forall x,
+       fst e x = p 0 x +! dt *! sumf weights 1 M *! v 0 x +! dt *! dt *! sumf (fun m => qQ m *! f m x) 1 M +! tauval taup M x /\
+       snd e x = v 0 x +! dt *! sumf (fun m => weights m *! f m x) 1 M +! tauval tauv M x).
+  Proof.
+    intros e. unfold e, verlet_end_point. split; intros Hb; rewrite Hb; [reflexivity|].
+    intros x. unfold tauval. split.
+    - assert (G : accum kadd (p 0) 1 M (fun m => vadd kadd (vscale kmul (dt *! (dt *! qQ m)) (f m)) (vscale kmul (dt *! weights m) (v 0))) x
+                  = p 0 x +! dt *! sumf weights 1 M *! v 0 x +! dt *! dt *! sumf (fun m => qQ m *! f m x) 1 M).
+      { rewrite (accum_spec kO kI kadd kmul ksub kopp Rth). unfold vadd, vscale.
+        rewrite (sumf_ext kO kadd (fun m => dt *! (dt *! qQ m) *! f m x +! dt *! weights m *! v 0 x)
+                   (fun m => (dt *! dt) *! (qQ m *! f m x) +! (dt *! v 0 x) *! weights m) 1 M) by (intros; ring).
+        rewrite (sumf_add kO kI kadd kmul ksub kopp Rth), !(sumf_scal kO kI kadd kmul ksub kopp Rth).
+        set (SW := sumf (fun m => weights m) 1 M). change (sumf weights 1 M) with SW. ring. }
+      remember (accum kadd (p 0) 1 M (fun m => vadd kadd (vscale kmul (dt *! (dt *! qQ m)) (f m)) (vscale kmul (dt *! weights m) (v 0)))) as EP.
+      destruct (taup M) as [t|]; cbn [fst]; unfold vadd; rewrite G; ring.
+    - assert (G : accum kadd (v 0) 1 M (fun m => vscale kmul (dt *! weights m) (f m)) x
+                  = v 0 x +! dt *! sumf (fun m => weights m *! f m x) 1 M).
+      { rewrite (accum_spec kO kI kadd kmul ksub kopp Rth). unfold vscale.
+        rewrite (sumf_ext kO kadd (fun m => dt *! weights m *! f m x) (fun m => dt *! (weights m *! f m x)) 1 M) by (intros; ring).
+        rewrite (sumf_scal kO kI kadd kmul ksub kopp Rth). reflexivity. }
+      remember (accum kadd (v 0) 1 M (fun m => vscale kmul (dt *! weights m) (f m))) as EV.
+      destruct (tauv M) as [t|]; cbn [snd]; unfold vadd; rewrite G; ring.
+  Qed.
+
+  (* with qQ = w^T Q (what verlet.__init__ configures; validated on the real table every run) the position end value is the
+     second-order form of  u0 + dt sum_n w_n F_n :  x0 + dt sum_n w_n (v0 + dt sum_j Q_nj f_j) *)
+  Corollary verlet_end_point_second_order_form dcu rin (p v f : nat -> V) taup tauv :
+    (forall m, qQ m = sumf (fun n => weights n *! Q n m) 1 M) ->
+    rin && negb dcu = false ->
+    let e := verlet_end_point kadd kmul M dt weights qQ rin dcu p v f taup tauv in
+    forall x, fst e x = p 0 x +! dt *! sumf (fun n => weights n *! (v 0 x +! dt *! sumf (fun j => Q n j *! f j x) 1 M)) 1 M
+                        +! tauval taup M x.
+  Proof.
+    intros HqQ Hb e x. destruct (verlet_end_point_form rin dcu p v f taup tauv) as [_ H]. cbv zeta in H. fold e in H.
+    destruct (H Hb x) as [Hp _]. rewrite Hp.
+    rewrite (sumf_ext kO kadd (fun n => weights n *! (v 0 x +! dt *! sumf (fun j => Q n j *! f j x) 1 M))
+               (fun n => v 0 x *! weights n +! dt *! sumf (fun j => weights n *! Q n j *! f j x) 1 M) 1 M).
+    2:{ intros n _.
+        rewrite (sumf_ext kO kadd (fun j => weights n *! Q n j *! f j x) (fun j => weights n *! (Q n j *! f j x)) 1 M) by (intros; ring).
+        rewrite (sumf_scal kO kI kadd kmul ksub kopp Rth). ring. }
+    rewrite (sumf_add kO kI kadd kmul ksub kopp Rth), !(sumf_scal kO kI kadd kmul ksub kopp Rth).
+    rewrite (sumf_swap (fun n j => weights n *! Q n j *! f j x)).
+    rewrite (sumf_ext kO kadd (fun m => qQ m *! f m x) (fun j => sumf (fun i => weights i *! Q i j *! f j x) 1 M) 1 M).
+    2:{ intros m _. rewrite HqQ.
+        rewrite (sumf_ext kO kadd (fun i => weights i *! Q i m *! f m x) (fun i => f m x *! (weights i *! Q i m)) 1 M) by (intros; ring).
+        rewrite (sumf_scal kO kI kadd kmul ksub kopp Rth). ring. }
+    set (SW := sumf (fun m => weights m) 1 M). change (sumf weights 1 M) with SW. ring.
+  Qed.
 End VerletProofs.
